@@ -73,6 +73,7 @@ def run(tier):
         with common.Lock():
             static = common.stage_gotables()
             common.stage_harness()
+            common.emit_all_gen()
             cgs, _ = gen.emit_callgraph(static)
             ok_inst, ok_props, _, logs = common.coq_stage(
                 rp, ["theories/Inst/Inst_C02.vo", "theories/Proofs/CallGraphP.vo", "theories/Proofs/LexerP.vo", "theories/Proofs/LexFaithP.vo", "theories/Inst/Inst_C04.vo"], "theories/Props/C02.v",
